@@ -460,15 +460,15 @@ def square_wave(fs, offset, samples, depth, fm, duty_cycle, alpha=0):
     # Now, pre-fill the array with the minimum modulation depth
     env = np.full(samples, 1-depth, dtype=np.double)
 
-    # Calculate start sample of first "on" portion that we will see in the
-    # signal given the offset. We subtract offset so that `fm_start` is
-    # referenced to the beginning of the offset array.
-    fm_start = fm_samples * (offset // fm_samples) - offset
+    # Index of the modulation period in progress at `offset`. The start of
+    # each period is rounded as an absolute sample position (so that it does
+    # not depend on `offset`) and only then referenced to the beginning of the
+    # offset array.
+    i_period = offset // fm_samples
 
     # Now, stride through the array
     while True:
-    #for s in np.arange(fm_start, fm_start + samples, fm_samples):
-        s = int(np.round(fm_start))
+        s = int(np.round(fm_samples * i_period)) - offset
         if s < 0:
             n_remaining = duty_samples + s
             if n_remaining > 0:
@@ -479,8 +479,8 @@ def square_wave(fs, offset, samples, depth, fm, duty_cycle, alpha=0):
             ub = np.clip(s + duty_samples, 0, samples)
             env[lb:ub] = tukey_env[:ub-lb]
 
-        fm_start += fm_samples
-        if fm_start > samples:
+        i_period += 1
+        if fm_samples * i_period - offset > samples:
             break
 
     return env
